@@ -630,118 +630,134 @@ func runC01(args []string) int {
 		row  [256]byte
 		ptxt string
 	}
-	rows := make([][256]rowRes, len(pairs)) // [pair][bt]
-	{
-		var wg sync.WaitGroup
-		work := make(chan int, 64)
-		for w := 0; w < 16; w++ {
-			wg.Add(1)
-			go func() {
-				defer wg.Done()
-				for i := range work {
-					for bt := 0; bt < 256; bt++ {
-						row, ptxt := implRow(pairs[i].gmn, pairs[i].num, byte(bt))
-						rows[i][bt] = rowRes{row, ptxt}
-					}
-				}
-			}()
-		}
-		for i := range pairs {
-			work <- i
-		}
-		close(work)
-		wg.Wait()
-	}
-	// group by class; collect model queries
-	type classRep struct {
-		pair int
-		row  [256]byte
-	}
-	reps := map[string]classRep{}
+	// group by class; collect model queries (each keeps its copy of the implementation's row)
 	type mq struct {
 		pair int
 		bt   int
 		why  string
+		irow [256]byte
 	}
+	reps := map[string][256]byte{}
 	var queries []mq
 	classes := map[string]int{}
-	var accepted []accDef
-	validatorPanics := 0
-	for i, pr := range pairs {
-		cls := descClass(known, pr.gmn, pr.num)
-		classes[cls]++
-		for bt := 0; bt < 256; bt++ {
-			rr := rows[i][bt]
-			key := cls + fmt.Sprintf("|bt=%d", bt)
-			nAcc := 0
-			for s := 0; s < 256; s++ {
-				switch rr.row[s] {
-				case 'o':
-					nAcc++
-					r.Hist["validator_accepted"]++
-					r.Hist["accepted_base_"+baseLabel(byte(bt))]++
-					r.Hist["accepted_size_"+sizeClassOf(s, baseSize(byte(bt)))]++
-					accepted = append(accepted, accDef{pr.gmn, pr.num, byte(s), byte(bt), pr.listed})
-				case 'e':
-					r.Hist["validator_rejected"]++
-				case 'p':
-					r.Hist["validator_panics"]++
-				}
+	var accepted []accDef   // listed fields: all; unlisted fields / unknown messages: a reservoir sample
+	var unlistedRes []accDef
+	unlistedBudget := sizes(o.tier, o.boost, 3000, 60000)
+	nUnlisted := 0
+	fullRows := thorough || o.boost > 1 // every row of every listed field goes to the model
+	hAcc, hRej, hPan := 0, 0, 0
+	accBase := map[byte]int{}
+	accSize := map[string]int{}
+	const chunkPairs = 512
+	for lo := 0; lo < len(pairs); lo += chunkPairs {
+		hi := lo + chunkPairs
+		if hi > len(pairs) {
+			hi = len(pairs)
+		}
+		rows := make([][256]rowRes, hi-lo) // [pair][bt]
+		{
+			var wg sync.WaitGroup
+			work := make(chan int, 64)
+			for w := 0; w < 16; w++ {
+				wg.Add(1)
+				go func() {
+					defer wg.Done()
+					for i := range work {
+						for bt := 0; bt < 256; bt++ {
+							row, ptxt := implRow(pairs[i].gmn, pairs[i].num, byte(bt))
+							rows[i-lo][bt] = rowRes{row, ptxt}
+						}
+					}
+				}()
 			}
-			r.Evaluations += 256
-			if nAcc > 0 {
-				r.count(fmt.Sprintf("v%d.%d.%d", pr.gmn, pr.num, bt), true)
-				r.Evaluations-- // count() adds one
+			for i := lo; i < hi; i++ {
+				work <- i
 			}
-			if rr.ptxt != "" {
-				validatorPanics++
-				// a concrete stream that reaches the validator with this definition
-				sz := 0
+			close(work)
+			wg.Wait()
+		}
+		for i := lo; i < hi; i++ {
+			pr := pairs[i]
+			cls := descClass(known, pr.gmn, pr.num)
+			classes[cls]++
+			for bt := 0; bt < 256; bt++ {
+				rr := &rows[i-lo][bt]
+				key := cls + "|bt=" + strconv.Itoa(bt)
+				nAcc := 0
+				bs := baseSize(byte(bt))
 				for s := 0; s < 256; s++ {
-					if rr.row[s] == 'p' {
-						sz = s
-						break
+					switch rr.row[s] {
+					case 'o':
+						nAcc++
+						hAcc++
+						accBase[byte(bt)]++
+						accSize[sizeClassOf(s, bs)]++
+						a := accDef{pr.gmn, pr.num, byte(s), byte(bt), pr.listed}
+						if pr.listed {
+							accepted = append(accepted, a)
+						} else {
+							nUnlisted++
+							if len(unlistedRes) < unlistedBudget {
+								unlistedRes = append(unlistedRes, a)
+							} else if j := rg.intn(nUnlisted); j < unlistedBudget {
+								unlistedRes[j] = a
+							}
+						}
+					case 'e':
+						hRej++
+					case 'p':
+						hPan++
 					}
 				}
-				c := c01Case{Entry: "D", Opts: "000", Origin: "validator sweep", Note: fmt.Sprintf("definition mesg=%d field=%d size=%d basetype=0x%02x", pr.gmn, pr.num, sz, bt),
-					RS: readerSpec{Data: singleFieldStream(hostFt(pr.gmn), false, pr.gmn, pr.num, byte(sz), byte(bt), make([]byte, sz))}}
-				rep := c.replay()
-				rep["validator"] = map[string]interface{}{"mesgnum": pr.gmn, "fieldnum": pr.num, "size": sz, "basetype": bt}
-				r.specFail("panic", fmt.Sprintf("validateFieldDef panics for message %d field %d base type 0x%02x %s", pr.gmn, pr.num, bt, rr.ptxt), rep)
+				r.Evaluations += 256
+				if nAcc > 0 {
+					r.count("v"+strconv.Itoa(int(pr.gmn))+"."+strconv.Itoa(int(pr.num))+"."+strconv.Itoa(bt), true)
+					r.Evaluations-- // count() adds one
+				}
+				if rr.ptxt != "" {
+					// a concrete stream that reaches the validator with this definition
+					sz := 0
+					for s := 0; s < 256; s++ {
+						if rr.row[s] == 'p' {
+							sz = s
+							break
+						}
+					}
+					c := c01Case{Entry: "D", Opts: "000", Origin: "validator sweep", Note: fmt.Sprintf("definition mesg=%d field=%d size=%d basetype=0x%02x", pr.gmn, pr.num, sz, bt),
+						RS: readerSpec{Data: singleFieldStream(hostFt(pr.gmn), false, pr.gmn, pr.num, byte(sz), byte(bt), make([]byte, sz))}}
+					rep := c.replay()
+					rep["validator"] = map[string]interface{}{"mesgnum": pr.gmn, "fieldnum": pr.num, "size": sz, "basetype": bt}
+					r.specFail("panic", fmt.Sprintf("validateFieldDef panics for message %d field %d base type 0x%02x %s", pr.gmn, pr.num, bt, rr.ptxt), rep)
+				}
+				if rep, ok := reps[key]; !ok {
+					reps[key] = rr.row
+					queries = append(queries, mq{i, bt, "class representative", rr.row})
+				} else if rep != rr.row {
+					r.Hist["validator_row_deviates_from_class"]++
+					queries = append(queries, mq{i, bt, "deviates from its class", rr.row})
+				} else if fullRows && pr.listed && len(queries) < 400000 {
+					queries = append(queries, mq{i, bt, "full sweep of listed fields", rr.row})
+				}
 			}
-			if rep, ok := reps[key]; !ok {
-				reps[key] = classRep{i, rr.row}
-				queries = append(queries, mq{i, bt, "class representative"})
-			} else if rep.row != rr.row {
-				r.Hist["validator_row_deviates_from_class"]++
-				queries = append(queries, mq{i, bt, "deviates from its class"})
+			// one row per pair at the profile base type (ties the class assignment to the model's tables)
+			bt := 2
+			if f, ok := safeGetField(pr.gmn, pr.num); ok && known[fit.MesgNum(pr.gmn)] {
+				bt = int(byte(types.Fit(f.T).BaseType()))
 			}
+			queries = append(queries, mq{i, bt, "per-field row", rows[i-lo][bt].row})
 		}
-		// one row per pair at the profile base type (ties the class assignment to the model's tables)
-		bt := 2
-		if f, ok := safeGetField(pr.gmn, pr.num); ok && known[fit.MesgNum(pr.gmn)] {
-			bt = int(byte(types.Fit(f.T).BaseType()))
-		}
-		queries = append(queries, mq{i, bt, "per-field row"})
 	}
-	if thorough || o.boost > 1 {
-		// everything, pair by pair
-		queries = queries[:0]
-		for i := range pairs {
-			for bt := 0; bt < 256; bt++ {
-				queries = append(queries, mq{i, bt, "full sweep"})
-			}
-		}
-		if !thorough && len(queries) > 60000 {
-			// boosted quick run: keep it bounded
-			step := len(queries)/60000 + 1
-			var q2 []mq
-			for k := 0; k < len(queries); k += step {
-				q2 = append(q2, queries[k])
-			}
-			queries = q2
-		}
+	r.Hist["validator_accepted"] = hAcc
+	r.Hist["validator_rejected"] = hRej
+	r.Hist["validator_panics"] = hPan
+	for b, n := range accBase {
+		r.Hist["accepted_base_"+baseLabel(b)] += n
 	}
+	for k, n := range accSize {
+		r.Hist["accepted_size_"+k] += n
+	}
+	nListed := len(accepted)
+	accepted = append(accepted, unlistedRes...)
 	{
 		reqs := make([]string, len(queries))
 		for k, q := range queries {
@@ -754,7 +770,7 @@ func runC01(args []string) int {
 		}
 		for k, q := range queries {
 			pr := pairs[q.pair]
-			irow := rows[q.pair][q.bt].row
+			irow := q.irow
 			mrow := resp[k]
 			if len(mrow) != 256 {
 				fmt.Println("driver: bad validate_row response:", mrow)
@@ -784,16 +800,7 @@ func runC01(args []string) int {
 	// ------------------------------------------------ (b)
 	var bcases []c01Case
 	var bmodel []bool
-	unlistedBudget := sizes(o.tier, o.boost, 3000, 60000)
 	listedBudget := sizes(o.tier, o.boost, 150000, 3000000)
-	nUnlisted, nListed := 0, 0
-	for _, a := range accepted {
-		if a.listed {
-			nListed++
-		} else {
-			nUnlisted++
-		}
-	}
 	// the unchanged library accepts about 48000 definitions of listed fields: all of them are run. If a change of
 	// the validator makes that explode, each (message, field, base type) row keeps its smallest and largest
 	// accepted size and a random sample.
@@ -802,12 +809,7 @@ func runC01(args []string) int {
 	r.Extra["accepted_listed_sampled"] = sampleListed
 	k := 0
 	for ai, a := range accepted {
-		if !a.listed {
-			// sample
-			if nUnlisted > unlistedBudget && rg.intn(nUnlisted) >= unlistedBudget {
-				continue
-			}
-		} else if sampleListed {
+		if a.listed && sampleListed {
 			first := ai == 0 || accepted[ai-1].gmn != a.gmn || accepted[ai-1].num != a.num || accepted[ai-1].bt != a.bt
 			last := ai == len(accepted)-1 || accepted[ai+1].gmn != a.gmn || accepted[ai+1].num != a.num || accepted[ai+1].bt != a.bt
 			if !first && !last && rg.intn(nListed) >= listedBudget/2 {
@@ -844,7 +846,9 @@ func runC01(args []string) int {
 	if code := runAndJudge(r, d, "accepted", bcases, bmodel, par); code != 0 {
 		return code
 	}
-	r.Extra["accepted_definitions"] = len(accepted)
+	r.Extra["accepted_definitions"] = hAcc
+	r.Extra["accepted_unlisted_definitions"] = nUnlisted
+	r.Extra["accepted_unlisted_sampled"] = len(unlistedRes)
 	r.Extra["accepted_definition_streams"] = len(bcases)
 
 	// ------------------------------------------------ (c)
@@ -1060,14 +1064,13 @@ func runC01(args []string) int {
 	}
 	r.Extra["stream_cases"] = len(ccases)
 	r.Exhaustive = thorough
-	r.sample(map[string]interface{}{"validator_pairs": len(pairs), "accepted_definitions": len(accepted), "accepted_definition_streams": len(bcases), "stream_cases": len(ccases)})
+	r.sample(map[string]interface{}{"validator_pairs": len(pairs), "accepted_definitions": hAcc, "accepted_definition_streams": len(bcases), "stream_cases": len(ccases)})
 	if len(bcases) > 0 {
 		r.sample(bcases[len(bcases)/2].replay())
 	}
 	if len(ccases) > 0 {
 		r.sample(ccases[len(ccases)/3].replay())
 	}
-	_ = validatorPanics
 	return r.finish()
 }
 
